@@ -851,6 +851,58 @@ def symbolic_comp(interp, e, g, seq: V.SymSeq, frame, kind):
     raise Unsupported(kind)
 
 
+def filtered_comp(interp, e, g, seq: V.SymSeq, frame, kind):
+    """[x for x in seq if p(x)] / {x for x in seq if p(x)} with the iteration variable itself as element: the order-preserving
+    sub-sequence of the elements satisfying p (positions given by a strictly increasing map, onto the satisfying indices)."""
+    from .interp import Frame
+    cx = interp.cx
+    if kind not in ("list", "set") or not (isinstance(g.target, ast.Name) and isinstance(e.elt, ast.Name) and e.elt.id == g.target.id):
+        raise Unsupported("filtered comprehension over a symbolic iterable (element is not the iteration variable)")
+
+    def cond_on(elem):
+        f2 = Frame(frame.func, frame.module, parent=frame, cls=frame.cls)
+        f2.qual = getattr(frame, "qual", "?")
+        f2.self_obj = frame.self_obj
+        interp.assign(g.target, elem, f2)
+        c = True
+        for cnd in g.ifs:
+            c = V.and_(c, interp.truth(interp.eval(cnd, f2)))
+        return lift(c)
+    i0 = cx.fresh_int("ci")
+    cx.assume(z3.And(0 <= i0, i0 < lift(seq.length)))
+    pos0 = cx.pos
+    c0 = cond_on(seq.get(i0))
+    decs = list(cx.decisions[pos0:cx.pos])
+
+    def p_at(i):
+        mark = len(cx.obligations)
+        cx.replay_stack.append({"decs": decs, "pos": 0})
+        cx.muted += 1
+        try:
+            r = cond_on(seq.get(i))
+        finally:
+            cx.muted -= 1
+            cx.replay_stack.pop()
+        del cx.obligations[mark:]
+        return r
+    n = lift(seq.length)
+    k = cx.fresh_int("nfiltered")
+    pos = cx.fresh_func("fpos", z3.IntSort(), z3.IntSort())
+    inv = cx.fresh_func("finv", z3.IntSort(), z3.IntSort())
+    i, j = z3.Int("i!q"), z3.Int("j!q")
+    cx.assume(z3.And(0 <= k, k <= n), tag="filtered comprehension")
+    cx.assume(V.forall([i], z3.Implies(z3.And(0 <= i, i < k), z3.And(0 <= pos(i), pos(i) < n, p_at(pos(i)), inv(pos(i)) == i)),
+                       patterns=[pos(i)]), tag="filtered comprehension: kept elements satisfy the filter")
+    cx.assume(V.forall([i, j], z3.Implies(z3.And(0 <= i, i < j, j < k), pos(i) < pos(j)), patterns=[z3.MultiPattern(pos(i), pos(j))]),
+              tag="filtered comprehension: order preserved")
+    cx.assume(V.forall([j], z3.Implies(z3.And(0 <= j, j < n, p_at(j)), z3.And(0 <= inv(j), inv(j) < k, pos(inv(j)) == j)),
+                       patterns=[inv(j)]), tag="filtered comprehension: every satisfying element is kept")
+    sub = V.SymSeq(k, lambda ii: seq.get(pos(lift(ii))), distinct=True if seq.distinct is True else None)
+    if kind == "set":
+        return set_from_seq(interp, sub)
+    return sub
+
+
 def _key_is_iteration_key(seq, k0, i0):
     """the dict-comprehension key is the key component that seq.at_key() is indexed by"""
     e = seq.get(i0)
